@@ -456,6 +456,15 @@ func (e flattenEngine) Check(prop, tier string, c *runner.Case) *runner.Result {
 			res.Ev("hooks_unreached", 1)
 		}
 		res.Set("phase_signatures", modeOf(os_)+":"+strings.Join(run.Mutating, ","))
+		if prop == "C04" && run.OK() && os_.Expand && cyclic {
+			// C07 leaves Expand on cyclic bundles out (reproducibility is not promised there); success is promised,
+			// and failures of this kind have been seen to depend on map iteration order: repeat
+			for i := 0; i < 12 && run.OK(); i++ {
+				run = runFlatten(files, root, os_, 0, nodes)
+				res.Evals++
+				res.Ev("expand_cyclic_repeats", 1)
+			}
+		}
 		if !run.OK() {
 			if prop == "C04" {
 				e.c04fail(res, run, o)
